@@ -25,7 +25,8 @@ type c01Replay struct {
 
 func c01Store(r *rng, n int) [][2]string {
 	keyPool := []string{"", "a", "a\x00", "aa", "ab", "ab\x00", "aba", "abc", "abd", "ac", "b", "b0", "ba", "bb", "c", "ca", "k", "ka", "kb", "x,y", "12", "A", "zz"}
-	valPool := []string{"12", "-3", "2.5", "abc", "", "a,b,c", "7", "007", "x", "1e2", "a", "ab", "b", "100", "0.5"}
+	valPool := []string{"12", "-3", "2.5", "abc", "", "a,b,c", "7", "007", "x", "1e2", "a", "ab", "b", "100", "0.5",
+		"9007199254740992", "9007199254740993", "9007199254740994"} // neighbours above 2^53: equal as float64, different as integers
 	set := map[string]string{}
 	for len(set) < n && len(set) < len(keyPool) {
 		set[pick(r, keyPool)] = pick(r, valPool)
@@ -40,6 +41,23 @@ func c01Store(r *rng, n int) [][2]string {
 		out[i] = [2]string{k, set[k]}
 	}
 	return out
+}
+
+// c01SubexprFails: does some node of the tree fail (error or panic) on some stored pair when
+// evaluated on its own?  Batch evaluation computes every node on every pair of a chunk, so an
+// error in a batch drain is legitimate only then.
+func c01SubexprFails(root kvql.Expression, store [][2]string) bool {
+	fails := false
+	root.Walk(func(n kvql.Expression) bool {
+		for _, kv := range store {
+			if _, err, pn := execRow(n, kv[0], kv[1], false); err != nil || pn != "" {
+				fails = true
+				return false
+			}
+		}
+		return true
+	})
+	return fails
 }
 
 func c01Case(e *emitter, pred string, store [][2]string) {
@@ -94,7 +112,13 @@ func c01Case(e *emitter, pred string, store [][2]string) {
 				firstFail = &implFail{What: "select fails although the predicate evaluates on every stored pair", Sig: "C01/error", Replay: rp}
 				break
 			}
-			// batch evaluation may fail where row evaluation succeeds (no short-circuit)
+			// batch evaluation may fail where row evaluation succeeds (no short-circuit): but
+			// only when some sub-expression fails on some stored pair
+			if evaluable && !c01SubexprFails(sel.Where.Expr, store) {
+				rp.Mode, rp.Err = mode, res.Err.Error()
+				firstFail = &implFail{What: "batch drain fails although every sub-expression of the predicate evaluates on every stored pair", Sig: "C01/batch-error", Replay: rp}
+				break
+			}
 			e.count("drain_error")
 			continue
 		}
@@ -152,6 +176,7 @@ func runC01(c *runCtx) error {
 	}
 	g := newEgen(r)
 	g.coreOnly = true
+	g.intLits = append(g.intLits, "9007199254740993", "9007199254740992")
 	katoms := keyAtoms([]string{"", "a", "ab", "b", "c"}, false)
 	// regular expressions are outside the Coq twin (oracle): these predicates are judged on the
 	// Go side only (every drain against the row-at-a-time filter over the whole store)
